@@ -22,7 +22,7 @@ ID = "C03"
 ENGINE = "E1"
 RULE = (
     "Family_1(B0) + Family_2 on the interaction-prone features; agents = all in-space grid states + off-grid copies; "
-    "seeds {0,1,12345}; stochastic models additionally ALL one-hot transition arrays (cap 64 for deviation <= 1, 8 "
+    "seeds {0,1,12345}; stochastic models additionally ALL one-hot transition arrays (cap 64 for deviation <= 1, 5 "
     "otherwise in the quick tier) and an array with zero entries; every (agent, period pair, state variable) is an "
     "oracle evaluation; distinct by digest of the simulated frames"
 )
@@ -32,7 +32,7 @@ PRONE = ["filt", "e", "cc", "h", "cons", "wgrid", "trans", "aux"]
 
 
 def BOUND(tier):
-    return {"family": "Family_1 + Family_2|prone", "prone": PRONE, "seeds": [0, 1, 12345], "onehot_cap": {"dev<=1": 64, "dev2": 8 if tier == "quick" else 64}}
+    return {"family": "Family_1 + Family_2|prone", "prone": PRONE, "seeds": [0, 1, 12345], "onehot_cap": {"dev<=1": 64, "dev2": 5 if tier == "quick" else 64}}
 
 
 def cases(tier, seed):
@@ -152,7 +152,7 @@ def run_case(case):
     import jax.numpy as jnp
 
     jinit = e1.to_jax(init)
-    seeds = [0, 1, 12345] if r.stochastic else [0]
+    seeds = ([0, 1, 12345] if (case["dev"] <= 1 or case["tier"] == "thorough") else [0, 12345]) if r.stochastic else [0]
     for sd in seeds:
         try:
             fr = sim(params, initial_states=jinit, vf_arr_list=[jnp.asarray(v) for v in V], seed=sd)
@@ -176,7 +176,7 @@ def run_case(case):
             viols.append(violation("runs", "simulate", "EXC:" + type(e).__name__, f"integer-typed initial states: {str(e)[:300]}"))
     n_onehot = 0
     if r.stochastic and not viols:
-        cap = 64 if (case["dev"] <= 1 or case["tier"] == "thorough") else 8
+        cap = 64 if (case["dev"] <= 1 or case["tier"] == "thorough") else 5
         per_var = []
         for s in r.stochastic:
             arrs, total = onehot_arrays(tuple(np.asarray(params["shocks"][s]).shape), cap)
